@@ -55,6 +55,125 @@ func gcsConsts(repo string, add func(string, int64, string)) error {
 	if val < 0 {
 		return fmt.Errorf("gcsfs/file_info.go: newFileInfo: the Prefix of the folder probe is not recognised")
 	}
+	if err := gcsFileConsts(repo, add); err != nil {
+		return err
+	}
 	add("gcs_fileinfo_prefix_sep", val, "gcsfs/file_info.go newFileInfo: 1 iff the folder probe lists with the prefix path+separator (0: the bare path, which also matches look-alike siblings such as d.txt for d)")
+	return nil
+}
+
+// exprString renders a small expression (identifiers, selectors, calls, binary/unary operators,
+// literals) in a canonical spelling for shape comparison
+func exprString(e ast.Expr) string {
+	switch v := e.(type) {
+	case *ast.Ident:
+		return v.Name
+	case *ast.BasicLit:
+		return v.Value
+	case *ast.SelectorExpr:
+		return exprString(v.X) + "." + v.Sel.Name
+	case *ast.ParenExpr:
+		return "(" + exprString(v.X) + ")"
+	case *ast.UnaryExpr:
+		return v.Op.String() + exprString(v.X)
+	case *ast.BinaryExpr:
+		return exprString(v.X) + v.Op.String() + exprString(v.Y)
+	case *ast.CallExpr:
+		s := exprString(v.Fun) + "("
+		for i, a := range v.Args {
+			if i > 0 {
+				s += ","
+			}
+			s += exprString(a)
+		}
+		return s + ")"
+	}
+	return "?"
+}
+
+// the three earlier repairs of gcsfs, recognised by shape (coq/Model/Gcs.v: cfg_src)
+func gcsFileConsts(repo string, add func(string, int64, string)) error {
+	f, err := parseSrc(repo, "gcsfs/file.go")
+	if err != nil {
+		return err
+	}
+	// Readdir: `if count > 0 && count < len(fi) { fi = fi[:count] }` (1) or `if count > 0 {` (0)
+	rd := f.fn("GcsFile", "Readdir")
+	if rd == nil {
+		return fmt.Errorf("gcsfs/file.go: GcsFile.Readdir not found")
+	}
+	bound := int64(-1)
+	ast.Inspect(rd, func(n ast.Node) bool {
+		if is, ok := n.(*ast.IfStmt); ok && bound < 0 {
+			switch exprString(is.Cond) {
+			case "count>0&&count<len(fi)":
+				bound = 1
+			case "count>0":
+				bound = 0
+			}
+		}
+		return true
+	})
+	if bound < 0 {
+		return fmt.Errorf("gcsfs/file.go: Readdir: the count guard is not recognised")
+	}
+	add("gcs_readdir_bounds_count", bound, "gcsfs/file.go Readdir: 1 iff the slice fi[:count] is taken only when count < len(fi) (0: panics when count exceeds the listing)")
+	// readdirImpl: which entries are the folder's own?
+	ri := f.fn("GcsFile", "readdirImpl")
+	if ri == nil {
+		return fmt.Errorf("gcsfs/file.go: GcsFile.readdirImpl not found")
+	}
+	own := int64(-1)
+	ast.Inspect(ri, func(n ast.Node) bool {
+		if is, ok := n.(*ast.IfStmt); ok {
+			switch exprString(is.Cond) {
+			case `object.Prefix==""&&object.Name==ownPath`:
+				own = 1
+			case "tmp.Name()==ownInfo.Name()":
+				if own < 0 {
+					own = 0
+				}
+			}
+		}
+		return true
+	})
+	if own < 0 {
+		return fmt.Errorf("gcsfs/file.go: readdirImpl: the own-entry test is not recognised")
+	}
+	add("gcs_readdir_skips_own_path", own, "gcsfs/file.go readdirImpl: 1 iff the folder's own placeholder is recognised by its object path (0: by base name, which also drops a child named like the folder)")
+	g, err := parseSrc(repo, "gcsfs/fs.go")
+	if err != nil {
+		return err
+	}
+	ra := g.fn("Fs", "RemoveAll")
+	if ra == nil {
+		return fmt.Errorf("gcsfs/fs.go: Fs.RemoveAll not found")
+	}
+	// RemoveAll: the final Remove of the folder itself — `return fs.Remove(path)` (0) or the
+	// result checked with errors.Is(err, ErrFileNotFound) (1)
+	nIs := 0
+	tail := int64(-1)
+	ast.Inspect(ra, func(n ast.Node) bool {
+		if c, ok := n.(*ast.CallExpr); ok && exprString(c) == "errors.Is(err,ErrFileNotFound)" {
+			nIs++
+		}
+		return true
+	})
+	if body := ra.Body.List; len(body) > 0 {
+		if rs, ok := body[len(body)-1].(*ast.ReturnStmt); ok && len(rs.Results) == 1 {
+			switch exprString(rs.Results[0]) {
+			case "fs.Remove(path)":
+				tail = 0
+			case "err":
+				if nIs >= 2 {
+					tail = 1
+				}
+			}
+		}
+	}
+	if tail < 0 {
+		return fmt.Errorf("gcsfs/fs.go: RemoveAll: the tail (removal of the folder itself) is not recognised")
+	}
+	add("gcs_removeall_implicit_ok", tail, "gcsfs/fs.go RemoveAll: 1 iff not-found from the final Remove of the folder itself is success (an implicit folder is gone with its last object)")
 	return nil
 }
